@@ -88,7 +88,18 @@ def body(case):
     ns = build.ns()
     n = len(schema.rules)
     try:
-        robjs = [build.build_rule(rl) for rl in schema.rules]
+        # a rule that the schema lists twice is, in half of the cases, ONE Rule object listed twice
+        from ..terms import dumps
+        share = len(repr(doc0)) % 2 == 0
+        memo, robjs = {}, []
+        for rl in schema.rules:
+            k = dumps(rl)
+            if share and k in memo:
+                robjs.append(memo[k])
+                out.label("one-rule-object-listed-twice")
+            else:
+                memo[k] = build.build_rule(rl)
+                robjs.append(memo[k])
     except Exception as e:
         out.exc("build-rule", e)
         return out
